@@ -33,11 +33,35 @@ def gen_req(rng, exact):
             return r
 
 
-def gen_moves(rng, exact, n):
+def gen_bypass(rng, exact):
+    """move_absolute / rapid_absolute / set_axis: documented to bypass the transform; what matters to C04 is that
+    the *next* move starts from the image of the new tracked position.  Half of them go to a point where machine and
+    builder agree again under a linear map (the origin), so the end-to-end oracle stays armed."""
+    k = rng.choice(["moveabs", "rapidabs", "setaxis"])
+    u = rng.random()
+    if u < 0.45:
+        req = [0.0, 0.0, 0.0]
+    elif u < 0.7:
+        req = [X.grid(rng, 640) for _ in range(3)]
+    else:
+        req = gen_req(rng, exact)
+        if all(c is None for c in req):
+            req[rng.randrange(3)] = X.grid(rng, 64)
+    return (k, req)
+
+
+def gen_moves(rng, exact, n, bypass=0.0):
     ops = []
     for _ in range(n):
         if rng.random() < 0.22:
             ops.append(("dist", rng.choice(["rel", "abs"])))
+        if rng.random() < bypass:
+            ops.append(gen_bypass(rng, exact))
+            if rng.random() < 0.6:   # the very next call repeats the previous request (a remembered image would be reused)
+                prev = [o for o in ops if o[0] in ("move", "rapid")]
+                if prev:
+                    ops.append(prev[-1])
+                    continue
         f = rng.choice([100.0, 1500.0]) if rng.random() < 0.15 else None
         ops.append((rng.choice(["move", "move", "rapid"]), gen_req(rng, exact), f))
     return ops
@@ -80,6 +104,35 @@ def gen_small_ints(rng):
     return {"exact": exact, "dp": 5, "cls": "core", "ops": ops}
 
 
+def gen_state_block(rng, exact, budget):
+    """saved states interleaved with edits and moves: whatever object juggling save/restore and the `with` blocks do,
+    the moves that follow must be transformed by the mapping the API says is in force"""
+    ops = []
+    names = [None, None, "a", "b"]
+    for _ in range(rng.randint(1, 2)):
+        ops.append(("save", rng.choice(names)))
+        ops.append(X.gen_xf_op(rng, exact, budget))
+    blk = rng.random() < 0.7
+    if blk:
+        ops.append(("enter-current",) if rng.random() < 0.7 else ("enter-named", rng.choice(["a", "b"])))
+    for _ in range(rng.randint(1, 3)):
+        u = rng.random()
+        if u < 0.45:
+            ops.append(("restore", rng.choice(names)))
+        elif u < 0.8:
+            ops.append(X.gen_xf_op(rng, exact, budget))
+        else:
+            ops.append(("save", rng.choice(names)))
+    ops += gen_moves(rng, exact, rng.randint(0, 2))
+    if blk:
+        ops.append(("exit", rng.random() < 0.3))
+    for _ in range(rng.randint(1, 2)):
+        ops.append(("restore", rng.choice(names)))
+        ops.append(("move", [X.grid(rng, 640), X.grid(rng, 640), X.grid(rng, 640)], None))
+        ops += gen_moves(rng, exact, rng.randint(1, 2))
+    return ops
+
+
 def gen_case(rng):
     if rng.random() < 0.08:
         return gen_weak_coupling(rng)
@@ -100,7 +153,10 @@ def gen_case(rng):
     if rng.random() < 0.5:
         ops.append(("dist", "abs"))
     ops.append(("move", [X.grid(rng, 640), X.grid(rng, 640), X.grid(rng, 640)], None))  # all axes (agreement in G90)
-    ops += gen_moves(rng, exact, rng.randint(3, 9))
+    byp = rng.choice([0.0, 0.0, 0.25, 0.5])
+    ops += gen_moves(rng, exact, rng.randint(3, 9), byp)
+    if rng.random() < 0.3:
+        ops += gen_state_block(rng, exact, budget)
     if rng.random() < 0.3:
         # the transform changes mid-program (inside a `with` block or not), then an all-axes move and more moves
         blk = rng.random() < 0.5
@@ -181,7 +237,7 @@ def oracle(case, trace):
         op, k = e["op"], e["op"][0]
         where = f"step {i} ({e['line'][:40]})"
         # (a) the chain: the mapping in force is the composition the property describes
-        if k not in ("move", "rapid", "dist"):
+        if k not in ("move", "rapid", "dist", "moveabs", "rapidabs", "setaxis"):
             want = ref.step(op)
             if e["outcome"] != want:
                 return f"{where}: raised {e['outcome']}, expected {want}", "outcome"
@@ -193,6 +249,30 @@ def oracle(case, trace):
             continue
         if e["outcome"] != "ok":
             return f"{where}: raised {e['outcome']}", "outcome"
+        if k in ("moveabs", "rapidabs", "setaxis"):
+            # documented bypass: raw words (bracketed by G90 ... G91 in relative mode), raw target tracked
+            lex = [X.lex_line(w) for w in e["written"]]
+            codes = [c for c, _ in lex]
+            go = "G92" if k == "setaxis" else ("G0" if k == "rapidabs" else "G1")
+            want_codes = ["G90", go, "G91"] if (mach_rel and k != "setaxis") else [go]
+            if codes != want_codes:
+                return f"{where}: wrote {e['written']}", "bypass"
+            words = lex[want_codes.index(go)][1]
+            req = op[1]
+            for j, a in enumerate(X.AXES):
+                if (a in words) != (req[j] is not None) or (
+                        a in words and abs(float(words[a]) - req[j]) > half + GUARD * max(1.0, abs(req[j]))):
+                    return f"{where}: bypass words {words} for request {req}", "bypass"
+                want_pos = e["pos_before"][j] if req[j] is None else req[j]
+                if abs(float(e["obs"]["pos"][j] or 0.0) - want_pos) > 1e-9 * max(1.0, abs(want_pos)):
+                    return f"{where}: tracked {a} = {e['obs']['pos'][j]} after a bypass to {req}", "tracked"
+                if a in words:
+                    mach[j] = float(words[a])
+            # agreement survives exactly where the machine is (again) at transform(tracked)
+            scale = max(1.0, float(np.max(np.abs(mach))))
+            agree = float(np.max(np.abs(mach - np.array(e["image"])))) <= half + GUARD * scale
+            since = 0 if agree else since
+            continue
         if k == "dist":
             code, _ = X.lex_line(e["written"][0]) if e["written"] else (None, {})
             if code != ("G91" if op[1] == "rel" else "G90") or len(e["written"]) != 1:
@@ -268,6 +348,9 @@ def compare(case, trace, model_recs, R):
         if k == "dist":
             if ir.split(" | ")[1] != m["stmts"]:
                 return i, ir, mr
+        if k in ("moveabs", "rapidabs", "setaxis"):
+            if ir.split(" | ")[1] != X.model_record_rounded(mr, dp).split(" | ")[1]:
+                return i, ir, mr
         if k not in ("move", "rapid"):
             continue
         if len(e["written"]) != 1 or m["go"] is None:
@@ -324,12 +407,16 @@ def finish_batch(job):
         kinds, coupled = classify(case, tr)
         cj = jsonable(case)
         moves = sum(1 for e in tr if e["op"][0] in ("move", "rapid"))
+        if any(e["op"][0] in ("moveabs", "rapidabs", "setaxis") for e in tr):
+            R.count("has-bypass")
+        if any(e["op"][0] in ("save", "restore", "enter-named") for e in tr):
+            R.count("has-saved-states")
         R.case(cj, nontrivial=moves >= 2 and len(kinds - {"move", "rapid", "dist"}) >= 1, validated=not oracle_only)
         R.count(label, "regime:" + ("exact" if case["exact"] else "tolerant"), "class:" + case["cls"], f"dp:{case['dp']}",
                 "coupled-axis-moves:" + ("0" if coupled == 0 else "1+"))
         for e in tr:
             k = e["op"][0]
-            if k in ("move", "rapid"):
+            if k in ("move", "rapid", "moveabs", "rapidabs", "setaxis"):
                 R.count(f"{k}:{'rel' if e['obs']['rel'] else 'abs'}:axes={sum(c is not None for c in e['op'][1])}")
             else:
                 R.count("op:" + k + ("" if e["outcome"] == "ok" else ":" + e["outcome"]))
